@@ -57,6 +57,21 @@ Theorem C33_unlisted_has_no_index : forall s t, Agree s -> amem t (s_cat s) = fa
 Proof. exact unlisted_has_no_index. Qed.
 Print Assumptions C33_unlisted_has_no_index.
 
+(** index-driven lookups: in an agreeing state the entry under a key lists exactly the positions of
+    the rows carrying that key (ascending) -- the mirror of C15, here a consequence of Agree *)
+Theorem C33_index_entries_exact : forall s k x tb key, Agree s ->
+  alookup k (s_sidx s) = Some x -> alookup (qual public (si_table x)) (s_tabs s) = Some tb ->
+  dget key (si_data x) = matching_positions (t_schema tb) (si_cols x) key (t_rows tb) 0.
+Proof. exact index_entries_exact. Qed.
+Print Assumptions C33_index_entries_exact.
+
+Theorem C33_index_has_table : forall s k x, Agree s -> alookup k (s_sidx s) = Some x ->
+  exists sc rows, alookup (si_table x) (s_cat s) = Some sc /\
+                  alookup (qual public (si_table x)) (s_tabs s) = Some (mktab sc rows) /\
+                  forall c, In c (si_cols x) -> In c (col_names sc).
+Proof. exact index_has_table. Qed.
+Print Assumptions C33_index_has_table.
+
 (** dropped tables leave no indexes behind *)
 Theorem C33_drop_leaves_nothing : forall s tn ie, Agree s -> wf_qname tn = true -> known s (DropTable tn ie) = false ->
   cat_table_exists s tn = true ->
